@@ -1179,9 +1179,10 @@ class Engine:
 
     def vmerge_index(self, c, a, b):
         # characters: merge on code points
-        if self.is_strlike(a) and self.is_strlike(b):
-            ca = self.char_code(a) if not isinstance(a, SStr) else None
-            cb = self.char_code(b) if not isinstance(b, SStr) else None
+        if self.is_strlike(a) and self.is_strlike(b) and not isinstance(a, SStr) and not isinstance(b, SStr) \
+           and self.seq_len(a) == 1 and self.seq_len(b) == 1:
+            ca = self.char_code(a)
+            cb = self.char_code(b)
             if ca is not None and cb is not None:
                 if isinstance(ca, int) and isinstance(cb, int) and ca == cb:
                     return a
